@@ -6,7 +6,7 @@ from html.parser import HTMLParser
 
 from harness import core, sexp
 
-NASTY = ['plain text', '<script>XSS1</script>', '"><img src=x onerror=XSS2>', "' onmouseover='XSS3", 'a & b &amp; c', '{code} {0} {message!r}',
+NASTY = ['plain text', 'a[b[0]]>1 and <x>]]><admin>1</admin><![CDATA[', '<script>XSS1</script>', '"><img src=x onerror=XSS2>', "' onmouseover='XSS3", 'a & b &amp; c', '{code} {0} {message!r}',
          '{{ x }} {#sec}{/sec} {>partial/}', 'é 中 ✓', 'tab\tnew\nline', '</title></head><body>XSS4', '<![CDATA[XSS5]]>', '<!-- XSS6 -->',
          '&lt;already&gt;', '\x07bell\x1bescape', '%s %d %(x)s', 'http://evil/"onclick="XSS7', 'https://ok.example/errors/invalid_token', '', 'x' * 3000,
          '&<"\'' * 1500, 'a' * 2043 + '&&&&' + 'b' * 4000, ('<tag attr="v">' + "it's & more ") * 400]
@@ -106,7 +106,15 @@ def impl(case):
     for rq in case['requests']:
         headers = {} if rq['accept'] is None else {'Accept': rq['accept']}
         path = rq['path']
-        r = wsgi.call(app, wsgi.environ(path.encode('utf8').decode('latin-1'), headers=headers))
+        env = wsgi.environ(path.encode('utf8').decode('latin-1'), headers=headers)
+        if rq.get('upload'):
+            # a multipart form post with a file part: the debug page inspects the request, files included
+            body = (b'--BOUND\r\nContent-Disposition: form-data; name="field"\r\n\r\nvalue\r\n'
+                    b'--BOUND\r\nContent-Disposition: form-data; name="doc"; filename="a.txt"\r\nContent-Type: text/plain\r\n\r\n'
+                    b'file content <b>\r\n--BOUND--\r\n')
+            env = wsgi.environ(path.encode('utf8').decode('latin-1'), method='POST', headers=headers, body=body)
+            env['CONTENT_TYPE'] = 'multipart/form-data; boundary=BOUND'
+        r = wsgi.call(app, env)
         best = parse_accept_header(rq['accept'], MIMEAccept).best_match(SUPPORTED) if rq['accept'] is not None else \
             parse_accept_header(None, MIMEAccept).best_match(SUPPORTED)
         body = r.body.decode('utf8', 'replace')
@@ -230,7 +238,7 @@ def gen_case(rng, tier, classes):
     for _ in range(6 if tier == 'quick' else 16):
         kind = rng.choice(['raise', 'return', 'raise', 'boom', 'missing', 'reused'])
         path = '/' + kind if kind != 'missing' else '/nf/' + rng.choice(['<script>XSS1</script>', 'a"b', "x'y", 'plain', '<!-- XSS6 -->'])
-        reqs.append({'path': path, 'accept': rng.choice(ACCEPTS)})
+        reqs.append({'path': path, 'accept': rng.choice(ACCEPTS), 'upload': rng.random() < 0.25})
     response_kw = rng.choice([None, None, None, {'content_type': 'application/json'}, {'mimetype': 'application/json'},
                               {'content_type': 'text/html; charset=utf-8'}, {'mimetype': 'application/xml'}])
     return {'cls': cls, 'fields': fields, 'nasty': nasty, 'handler': rng.choice(['default', 'default', 'debug']), 'requests': reqs,
